@@ -303,6 +303,59 @@ CHECKS.update({
   ref="DESIGN.md §5 C03, docs/C03.md", tech=TECH),
 })
 
+# ---- second wave (depth work): amendments appended to the level texts --------------------------------------
+_AMEND = {
+ "C01": " SECOND WAVE: coq/c01vm2 extends the compile-correctness theorem to operands that need closures (oppushpc/opcallpc/opscope "
+        "frames, generators in operands with the right operand in the outer loop) and to parameterless user-defined functions "
+        "INCLUDING recursion (fuelled denotation: for every fuel on which the denotation terminates the VM terminates with the same "
+        "observation; lexical scoping, rebinding, calls from closures, optimizeTailRec variants compared by instruction list). "
+        "coq/sem/DenLink.v + VmLink.v + props/C01link.v: on the state-free fragment F0 the CPS reference semantics equals an eager "
+        "list semantics, which is related to c01vm's denotation under an embedding of values and natives, giving the END-TO-END "
+        "theorem C01link_vm_is_sem: the VM run of the compiled (peepholed) code yields exactly Sem.observe's outputs and ending.",
+ "C02": " SECOND WAVE: abs_delpaths (mark-then-sweep with the owned-only deleteEmpty denotes value-level deletion against the original "
+        "value, with frame, acyclicity and invariant), the whole compileAssign/compileModify loops lifted (C02_assign_sound, "
+        "C02_modify_sound under body_ok; D5/D9 are exactly the runs outside body_ok), getpath aliasing, and slices followed by an "
+        "index; only slice-directly-after-slice stays open (no counterexample in 460k heapsafe cases). 13 theorems.",
+ "C03": " SECOND WAVE: fromjson is modelled with C12's proved reference reader plus encoding/json's additions and judged exactly on 840 "
+        "systematic parse texts; implementation oracle fromjson(s) succeeds iff json.Valid(s).",
+ "C04": " SECOND WAVE: branch-join and destructuring-alternative generator blocks; F3 attribution isolated by rewrite R7; the c01vm "
+        "instruction-list correspondence runs under C04 in every tier; tail-call variants of optimizeTailRec are transcribed and "
+        "compared by instruction list in coq/c01vm2.",
+ "C07": " SECOND WAVE: coq/c07/VMLink.v instantiates the abstract step with coq/c01vm's concrete VM step (C07_c01vm_step_is_step, "
+        "C07_c01vm_calls_run, C07_c01vm_cancel_history) and a stream compares pc/backtrack of every instruction fetch and every "
+        "cancellation poll with that instance on fragment-F programs. 10 theorems.",
+ "C08": " SECOND WAVE: TOTAL CORRECTNESS of the parser driver (C08_parse_driver_total_correct: for every token list and every fuel >= "
+        "fuel_A*len+fuel_B computed from the tables the driver returns accept or syntax error - never panic, never out of fuel; "
+        "ranking certificate computed and checked inside Coq, error recovery included), the dynamic type assertions of all grammar "
+        "actions (translated with go/types; per-state type map computed in Coq; C08_symbol_type_map_is_a_function), and the command "
+        "top level (coq/integ/CliTotal.v: parse_flags then C15's run maps every argument vector and world behaviour to a status in "
+        "0..5 or a halt code; usage=2, option value=5, query error=3 rows); pipeline corollaries props/C08b.v. 26 theorems.",
+ "C09": " SECOND WAVE: props/C09b.v ties the ACTUAL goyacc tables to the specification parser inside Coq: the LR driver of coq/c08 over "
+        "the translated tables, with the semantic actions of the operator productions and token numbers translated from "
+        "parser.go/parser.go.y, returns exactly the spec parser's tree (or both reject) for all 24 + 3*576 + 13824 operator strings "
+        "and 6561 four-level strings (finite, bound stated; vm_compute), so 'binds as in jq' is a statement about the real tables. "
+        "Exhaustive term x suffix round-trip matrix (93,960 sources) in the implementation oracle. 19 theorems.",
+ "C12": " SECOND WAVE: raw output modes (-r/-j/--raw-output0 incl. NUL refusal), colour tables installed by setColors, the escaping "
+        "policy (which ASCII bytes are copied/escaped, lower-case \\u00XX, no non-ASCII character ever escaped incl. U+2028/9), and a "
+        "Flocq bridge showing the bit-pattern NaN test, clamp and f/e format choice are the IEEE comparisons for every double; "
+        "agreement of C15's render with this encoder (props/C12b.v). 41 + 3 theorems.",
+ "C13": " SECOND WAVE: [paths] = [path(..)] without the root for every value; todate|fromdate on years 1..9999 except the zero time "
+        "(timefmt-go modelled for the one format); tojson|fromjson and tostring|tonumber derived from C12 (props/C13b.v); the source "
+        "text hash of every transcribed builtin.jq definition is checked on every run. 24 theorems.",
+ "C14": " SECOND WAVE: test iff match, capture (named groups, null for non-participating), scan, split/2 = [splits], and TERMINATION of "
+        "the global match loop incl. empty matches under a progress hypothesis on the engine (fuel len+2 never exhausted, at most "
+        "len+1 matches); engine hypotheses checked on every sampled regexp output; builtin.jq text hashes. 22 theorems.",
+ "C20": " SECOND WAVE: bounds for ACTUAL compiled code. (i) an abstract interpreter of coq/c01vm's VM with a soundness proof and a "
+        "certificate checker: 20 loop forms compiled by the model compiler are bounded by a constant independent of the input; "
+        "(ii) coq/c20/EVM.v, the erased VM of execute.go with calls, closures, array stacks and frame logic (all non-path opcodes, "
+        "nondeterministic data choices) with certify_sound; coq/gen/GenEvmForms.v holds the code the CURRENT compiler emits "
+        "(regenerated every run through VerifDumpCode) for range, while, until, repeat, recurse, limit, first, last, isempty, reduce, "
+        "foreach, map, inputs and seven tail-recursive definition shapes, each proved bounded (evm_forms_bounded); every instruction "
+        "fetch of the implementation (debug trace + footprint) must be a path of that machine within the certified bound. 19 theorems.",
+}
+for _k, _v in _AMEND.items():
+    CHECKS[_k]["text"] += _v
+
 ORDER = ["C%02d" % i for i in range(1, 21)]
 NOT_APPLICABLE = {}
 PENDING_REASON = "check under construction in this development (builder not finished); not claimed yet"
